@@ -153,7 +153,16 @@ pub async fn add_node(
             )
         })?;
 
-    let mut node_number = current_node_count + 1;
+    let mut node_number = current_node_count.checked_add(1).ok_or_else(|| {
+        error!(
+            "Too many services: the service numbers would exceed {}",
+            u16::MAX
+        );
+        eyre!(
+            "Too many services: the service numbers would exceed {}",
+            u16::MAX
+        )
+    })?;
     let mut node_port = get_start_port_if_applicable(options.node_port);
     let mut metrics_port = get_start_port_if_applicable(options.metrics_port);
     let mut rpc_port = get_start_port_if_applicable(options.rpc_port);
@@ -317,6 +326,10 @@ pub async fn add_node(
             }
         }
 
+        // the last new number can be u16::MAX: the counter does not step past it
+        if node_number == target_node_count {
+            break;
+        }
         node_number += 1;
         node_port = increment_port_option(node_port);
         metrics_port = increment_port_option(metrics_port);
